@@ -13,7 +13,7 @@ LEAN_MODULE = "Signac.Properties.C08"
 DRIVER = "drv_cache"
 DESIGN_REF = "DESIGN.md §4 C08"
 RULE = ("histories over {init job, remove job, re-key job, update_cache, restart session, delete cache file} on a 5-job "
-        "universe {n:0..4} (re-key = job.sp.n = m): bounded-exhaustive length<=3 (quick) / <=4 (thorough) + seeded random "
+        "universe {n:k} with k chosen so that ids share 1- and 2-character prefixes (re-key = job.sp.n = m): bounded-exhaustive length<=3 (quick) / <=4 (thorough) + seeded random "
         "length<=40; after EVERY step the observables (ids by iteration, len, find_jobs per value, open-by-id state point "
         "of every existing job) are taken three times — through the live session, through a fresh session with the cache "
         "file as is, and through a fresh session with the cache file moved away — and compared with the raw directory "
@@ -41,10 +41,12 @@ LEVEL_NOTE = ("Trusted: Lean kernel + 3 standard axioms; harness and oracle. 'Sa
               "registration points; gzip/JSON encoding is the library's.")
 
 N = 5
+# values chosen so that ids collide in their first characters: {n:0}/{n:287} share "da", {n:1}/{n:6}/{n:49} share "9"
+KS = [0, 287, 1, 6, 49]
 
 
 def sp_of(i):
-    return {"n": i}
+    return {"n": KS[i]}
 
 
 def alphabet():
@@ -117,9 +119,23 @@ def read_cache_file(path):
 def view(project, truth):
     """Observables of C08 through one Project object."""
     v = {}
+    # abbreviated ids: the answer must depend on the workspace only, never on what a cache happens to hold
+    pre = {}
+    for i in truth:
+        for L in (1, 2, 3):
+            p = i[:L]
+            if p in pre:
+                continue
+            try:
+                pre[p] = project.open_job(id=p).id
+            except LookupError as e:   # KeyError is a LookupError too
+                pre[p] = type(e).__name__
+            except Exception as e:  # noqa: BLE001
+                pre[p] = "EXC:" + exc_name(e)
+    v["prefix"] = pre
     v["iter"] = sorted(j.id for j in project)
     v["len"] = len(project)
-    v["find"] = {str(k): sorted(j.id for j in project.find_jobs({"n": k})) for k in range(N)}
+    v["find"] = {str(k): sorted(j.id for j in project.find_jobs({"n": k})) for k in KS}
     v["findall"] = sorted(j.id for j in project.find_jobs({"n": {"$exists": True}}))
     byid = {}
     for i in truth:
@@ -134,9 +150,11 @@ def view(project, truth):
 def expected_view(truth):
     return {
         "iter": sorted(truth), "len": len(truth),
-        "find": {str(k): sorted(i for i, sp in truth.items() if sp.get("n") == k) for k in range(N)},
+        "find": {str(k): sorted(i for i, sp in truth.items() if sp.get("n") == k) for k in KS},
         "findall": sorted(truth),
         "byid": {i: tagged(sp) for i, sp in truth.items()},
+        "prefix": {p: (m[0] if len(m) == 1 else "LookupError")
+                   for p, m in ((i[:L], [x for x in truth if x.startswith(i[:L])]) for i in truth for L in (1, 2, 3))},
     }
 
 
@@ -160,7 +178,7 @@ def run_case(case, ctx):
                 elif k == "remove":
                     project.open_job(sp_of(op[1])).remove()
                 elif k == "rekey":
-                    project.open_job(sp_of(op[1])).sp.n = op[2]
+                    project.open_job(sp_of(op[1])).sp.n = KS[op[2]]
                 elif k == "ucache":
                     r = project.update_cache()
                     res = "none" if r is None else str(r)
@@ -228,7 +246,7 @@ def run_case(case, ctx):
             if k in ("init", "remove"):
                 mops.append("%s %s" % (k, enc_val(sp_of(op[1]))))
             elif k == "rekey":
-                mops.append("rekey %s %s %s" % (enc_val(sp_of(op[1])), "S" + hx("n"), enc_val(op[2])))
+                mops.append("rekey %s %s %s" % (enc_val(sp_of(op[1])), "S" + hx("n"), enc_val(KS[op[2]])))
             else:
                 mops.append(k)
             # NOTE: the views above go through the live session and register state points in its cache; the
